@@ -55,6 +55,19 @@ theorem C14_key_lengths (h : Bytes → Bytes) (seed : Bytes) (hl : Nat) (hpos : 
     (generateKeys h seed a b c).iv.length = c :=
   ⟨pSha_length h seed hl hpos hh _, generateKeys_lengths h seed hl hpos hh a b c⟩
 
+/-- P_hash is ONE stream: asking for more bytes only extends what a shorter
+    request returns (so the key lengths of a profile decide where the keys are
+    cut, never what the bytes before the cut are) — for all lengths -/
+theorem C14_psha_prefix (h : Bytes → Bytes) (seed : Bytes) (hl : Nat) (hpos : 0 < hl)
+    (hh : ∀ m, (h m).length = hl) (n m : Nat) (hnm : n ≤ m) :
+    (Spec.pSha h seed m).take n = Spec.pSha h seed n := by
+  obtain ⟨d, rfl⟩ := Nat.exists_eq_add_of_le hnm
+  have hlen : n ≤ (Spec.stream h seed n 1).length := by
+    rw [stream_length h seed hl hh]
+    exact Nat.le_mul_of_pos_right n hpos
+  simp only [Spec.pSha, stream_append, List.take_take, Nat.min_eq_left (Nat.le_add_right n d)]
+  rw [List.take_append_of_le_length hlen]
+
 /-- the generated table and the specification's profile table describe the same
     five policies with the same hashes and key lengths -/
 theorem C14_profiles :
